@@ -349,6 +349,18 @@ def blocks (b : Nat) : Nat → Bytes → List Bytes
   | 0, _ => []
   | fuel + 1, d => if d.isEmpty || b == 0 then [] else d.take b :: blocks b fuel (d.drop b)
 
+/-- `FileWrapper.__next__` over a file object with SHORT READS: one `file.read(buffer_size)` per
+item, and only an EMPTY read ends the iteration. `sched` caps what each successive read returns
+(a cap of 0 counts as 1: a blocking read returns at least one byte before end of file); when the
+schedule runs out the reads are full blocks. -/
+def fileWrapperItems (b : Nat) : Nat → List Nat → Bytes → List Bytes
+  | 0, _, _ => []
+  | fuel + 1, sched, d =>
+    if d.isEmpty || b == 0 then []
+    else
+      let k := max 1 (min b (sched.headD b))
+      d.take k :: fileWrapperItems b fuel sched.tail (d.drop k)
+
 /-- `list(_RangeWrapper(FileWrapper(file, b), start, len))` for a seekable file holding `data`:
 `seek(start)`, `read_length = tell() = start`, then the ordinary iterations -/
 def rangeWrapSeek (data : Bytes) (b : Nat) (start len : Nat) : List Bytes :=
